@@ -302,6 +302,90 @@ theorem associatedWith_iff (p : MasterPlaylist) (v : VariantStream) (i : Nat) :
   · rintro ⟨j, m, h1, h2, h3⟩; exact ⟨m, by simpa [h2] using h1, h3⟩
   · rintro ⟨m, h1, h2⟩; exact ⟨i, m, h1, by simp, h2⟩
 
+/-! ## the stream selectors -/
+
+theorem positionsWhere_go {α} (f : α → Bool) (l : List α) (k i : Nat) :
+    i ∈ positionsWhere.go f l k ↔ ∃ j x, l[j]? = some x ∧ i = k + j ∧ f x = true := by
+  induction l generalizing k with
+  | nil => simp [positionsWhere.go]
+  | cons a rest ih =>
+    simp only [positionsWhere.go]
+    constructor
+    · intro h
+      split at h
+      · rename_i hf
+        rcases List.mem_cons.mp h with rfl | h
+        · exact ⟨0, a, by simp, by simp, hf⟩
+        · obtain ⟨j, x, h1, h2, h3⟩ := (ih (k + 1)).mp h
+          exact ⟨j + 1, x, by simpa using h1, by omega, h3⟩
+      · obtain ⟨j, x, h1, h2, h3⟩ := (ih (k + 1)).mp h
+        exact ⟨j + 1, x, by simpa using h1, by omega, h3⟩
+    · rintro ⟨j, x, h1, h2, h3⟩
+      cases j with
+      | zero =>
+        simp at h1; subst h1
+        simp [h3, h2]
+      | succ j =>
+        have : i ∈ positionsWhere.go f rest (k + 1) := (ih (k + 1)).mpr ⟨j, x, by simpa using h1, by omega, h3⟩
+        split
+        · exact List.mem_cons_of_mem _ this
+        · exact this
+
+theorem positionsWhere_iff {α} (f : α → Bool) (l : List α) (i : Nat) :
+    i ∈ positionsWhere f l ↔ ∃ x, l[i]? = some x ∧ f x = true := by
+  unfold positionsWhere
+  rw [positionsWhere_go]
+  constructor
+  · rintro ⟨j, x, h1, h2, h3⟩; exact ⟨x, by simpa [h2] using h1, h3⟩
+  · rintro ⟨x, h1, h2⟩; exact ⟨i, x, h1, by simp, h2⟩
+
+/-- **`audio_streams`** selects exactly the STREAM-INF variants that reference an AUDIO group -/
+theorem audioStreams_iff (p : MasterPlaylist) (i : Nat) :
+    i ∈ p.audioStreams ↔ ∃ uri fr g su cc d, p.variant_streams[i]? = some (.extXStreamInf uri fr (some g) su cc d) := by
+  unfold MasterPlaylist.audioStreams
+  rw [positionsWhere_iff]
+  constructor
+  · rintro ⟨v, h1, h2⟩
+    cases v with
+    | extXIFrame u d => cases h2
+    | extXStreamInf uri fr au su cc d =>
+      cases au with
+      | none => cases h2
+      | some g => exact ⟨uri, fr, g, su, cc, d, h1⟩
+  · rintro ⟨uri, fr, g, su, cc, d, h⟩; exact ⟨_, h, rfl⟩
+
+/-- **`video_streams`** selects exactly the variants (of either kind) whose stream data names a VIDEO group -/
+theorem videoStreams_iff (p : MasterPlaylist) (i : Nat) :
+    i ∈ p.videoStreams ↔ ∃ v, p.variant_streams[i]? = some v ∧ v.streamData.video.isSome = true := by
+  unfold MasterPlaylist.videoStreams
+  rw [positionsWhere_iff]; rfl
+
+/-- **`unassociated_streams`** selects exactly the variants that reference no group at all -/
+theorem unassociatedStreams_iff (p : MasterPlaylist) (i : Nat) :
+    i ∈ p.unassociatedStreams ↔ ∃ v, p.variant_streams[i]? = some v ∧ v.streamData.video = none ∧
+      ∀ uri fr au su cc d, v = .extXStreamInf uri fr au su cc d → au = none ∧ su = none ∧ cc = none := by
+  unfold MasterPlaylist.unassociatedStreams
+  rw [positionsWhere_iff]
+  constructor
+  · rintro ⟨v, h1, h2⟩
+    refine ⟨v, h1, ?_⟩
+    cases v with
+    | extXIFrame u d =>
+      simp only [VariantStream.isUnassociated, Option.isNone_iff_eq_none] at h2
+      exact ⟨h2, fun _ _ _ _ _ _ e => by cases e⟩
+    | extXStreamInf uri fr au su cc d =>
+      cases au <;> cases su <;> cases cc <;> simp only [VariantStream.isUnassociated, Option.isNone_iff_eq_none] at h2 <;>
+        first
+        | exact ⟨h2, fun _ _ _ _ _ _ e => by cases e; exact ⟨rfl, rfl, rfl⟩⟩
+        | cases h2
+  · rintro ⟨v, h1, h2, h3⟩
+    refine ⟨v, h1, ?_⟩
+    cases v with
+    | extXIFrame u d => simpa [VariantStream.isUnassociated, VariantStream.streamData] using h2
+    | extXStreamInf uri fr au su cc d =>
+      obtain ⟨rfl, rfl, rfl⟩ := h3 uri fr au su cc d rfl
+      simpa [VariantStream.isUnassociated, VariantStream.streamData] using h2
+
 /-! ## non-vacuity -/
 
 /-- an accepted, non-trivial configuration: one audio rendition, one variant referencing it,
